@@ -515,6 +515,7 @@ func c12Run(ci any) Result {
 	if c.Conc > 0 {
 		return c12RunConc(c)
 	}
+	c12ForgetExpired(c)
 	ops := []string{wStr(c.TokenLookup), "0"}
 	if c.PreSet {
 		ops = []string{wStr(c.TokenLookup), "1", wStr(insts[0].key), wStr(c12Preset)}
@@ -819,6 +820,11 @@ func c12Run(ci any) Result {
 						d = want
 					}
 					attrs = []string{wStr(ck.Path), wStr(ck.Domain), wInt(d), wBool(ck.Secure), wBool(ck.HttpOnly), wInt(int(ck.SameSite))}
+					// for Tolerable (not part of the observation line): a Set-Cookie that tells the client to DROP the
+					// cookie (Max-Age < 0, or an Expires that lies in the past) does not hand the token to the client
+					if ck.MaxAge < 0 || (!ck.Expires.IsZero() && ck.Expires.Unix() < o.t0.Unix()) {
+						c12NoteExpired(c, i, k)
+					}
 				}
 				if o.ctxTok[k] != nil {
 					ct = wStr(*o.ctxTok[k])
@@ -1847,7 +1853,106 @@ func c12Gen(r *rand.Rand, tier string) []any {
 	for i := 0; i < nconc; i++ {
 		out = append(out, c12GenConc(r, tier == "thorough" && i%3 == 0))
 	}
+	// appended after everything else: the cases above are the same as before for a given seed
+	ncross := 150
+	if tier == "thorough" {
+		ncross = 1800
+	}
+	for i := 0; i < ncross; i++ {
+		out = append(out, c12GenCrossKind(r))
+	}
 	return out
+}
+
+// c12GenCrossKind: sources of DIFFERENT kinds and different names in one lookup string, in every order, and the
+// cookie's token under the NAME of one configured source but at the KIND of location of another one (the query
+// parameter's name as a body field, the form field's name as a header, the header's name in the query ...): not a
+// configured lookup location, whatever an earlier source of the chain has parsed.  The body is one net/http parses
+// (POST/PUT/PATCH urlencoded, or multipart with any method) in most cases.  A third of the cases stack the second
+// CSRF instance (lookup header:X-Csrf2,query:csrf2) behind a first one that is satisfied through its form source:
+// the second instance's token is then presented as a BODY field csrf2.
+func c12GenCrossKind(r *rand.Rand) *c12Case {
+	lookups := []string{"form:tok,query:csrf", "query:csrf,form:tok", "form:tok,header:X-CSRF-Token,query:csrf",
+		"header:X-CSRF-Token,form:f,query:q", "form:a,form:b,query:c", "query:q,header:X-Tok:tok-,form:f", "form:f,query:q,header:X-CSRF-Token"}
+	c := &c12Case{TokenLookup: lookups[r.Intn(len(lookups))]}
+	c.CookieName = []string{"", "_csrf", "XSRF-TOKEN"}[r.Intn(3)]
+	c.TokenLength = []int{0, 8, 32}[r.Intn(3)]
+	two := r.Intn(3) == 0
+	if two {
+		c.Extra, c.Inst2, c.Len2 = 3, 0, 32
+	}
+	if r.Intn(4) == 0 {
+		c.Mount = 1 + r.Intn(4)
+	}
+	locs := c12Locs(c.TokenLookup)
+	name := c12Eff(c.CookieName, "_csrf")
+	put := func(rq *c12Req, kind, n, v string) {
+		switch kind {
+		case "header":
+			rq.Headers = append(rq.Headers, [2]string{n, v})
+		case "query":
+			rq.Query = append(rq.Query, [2]string{n, v})
+		case "form":
+			rq.Form = append(rq.Form, [2]string{n, v})
+		}
+	}
+	for j, n := 0, 1+r.Intn(3); j < n; j++ {
+		tok := c12Token(r)
+		rq := c12Req{Method: []string{"POST", "POST", "PUT", "PATCH", "DELETE", "CUSTOM"}[r.Intn(6)]}
+		rq.Cookies = [][2]string{{name, tok}}
+		rq.Rnd = c12Rnd(r, 104, false)
+		rq.Multipart = r.Intn(3) == 0
+		if two {
+			// the first instance is satisfied (through a form source where there is one, so that the body has been
+			// parsed when the second instance runs); the second instance's token sits in the body under the name of
+			// its QUERY source, or (a quarter) properly in its header
+			var forms []c12Loc
+			for _, l := range locs {
+				if l.kind == "form" {
+					forms = append(forms, l)
+				}
+			}
+			l := locs[r.Intn(len(locs))]
+			if len(forms) > 0 && r.Intn(4) != 0 {
+				l = forms[r.Intn(len(forms))]
+			}
+			put(&rq, l.kind, l.name, l.pfx+tok)
+			tok2 := c12Token(r)
+			rq.Cookies = append(rq.Cookies, [2]string{"_csrf2", tok2})
+			if r.Intn(4) == 0 {
+				put(&rq, "header", "X-Csrf2", tok2)
+			} else {
+				put(&rq, "form", "csrf2", tok2)
+				if r.Intn(2) == 0 {
+					put(&rq, "query", "csrf2", c12NearMiss(r, tok2))
+				}
+			}
+			c.Reqs = append(c.Reqs, rq)
+			continue
+		}
+		for tries := 0; tries < 1+r.Intn(2); tries++ {
+			a := locs[r.Intn(len(locs))]
+			kind := []string{"header", "query", "form", "form"}[r.Intn(4)]
+			// not where the name IS configured (Request.Form also holds the query values: a form source's name in the
+			// query is a configured location)
+			if kind == a.kind || c12Configured(c, kind, a.name) || kind == "query" && c12Configured(c, "form", a.name) {
+				continue
+			}
+			put(&rq, kind, a.name, a.pfx+tok)
+		}
+		if r.Intn(2) == 0 {
+			c12Place(r, nil, &rq, locs[r.Intn(len(locs))], c12NearMiss(r, tok))
+		}
+		if r.Intn(3) == 0 {
+			// what a browser says about the origin of the request: none of it stands in for the token
+			rq.Headers = append(rq.Headers, [2]string{"Sec-Fetch-Site", []string{"same-origin", "same-origin", "same-site", "none", "cross-site"}[r.Intn(5)]})
+			if r.Intn(2) == 0 {
+				rq.Headers = append(rq.Headers, [2]string{"Origin", "http://example.com"}, [2]string{"Referer", "http://example.com/form"}, [2]string{"Sec-Fetch-Mode", "cors"})
+			}
+		}
+		c.Reqs = append(c.Reqs, rq)
+	}
+	return c
 }
 
 // c12CarryOver: state carried from one request to the next.  Request j+1 gets, as its CSRF cookie, a
@@ -2146,16 +2251,381 @@ func c12Shrink(ci any) []any {
 	return out
 }
 
+// ---------- model drift outside the property (Tolerable) ----------
+//
+// The observation line carries more than C12 states.  C12 constrains, per request: whether the handler ran;
+// that a refusal is a 4xx; for a passed request and every CSRF instance in front of the handler that a Set-Cookie
+// with the instance's cookie name is there, that its value is the request cookie's token (or, without request
+// cookie, TokenLength ASCII letters) and that the handler finds that very token under the ContextKey.  It says
+// nothing about: which 4xx refuses; the cookie's attributes (Path, Domain, expiry, Secure, HttpOnly, SameSite);
+// WHICH letters a fresh token consists of (the model replays randomString on the injected byte stream, the
+// property only fixes length and alphabet); the X-Request-Id another middleware writes; Set-Cookie lines of the
+// application; what the helper CreateExtractors returns for a string; and it is quantified over TokenLookup
+// strings made of header / form / query sources only.
+
+// side table of the last Run of a case: (request, instance) pairs whose Set-Cookie was an expired one
+var (
+	c12ExpiredMu sync.Mutex
+	c12Expired   = map[*c12Case]map[[2]int]bool{}
+)
+
+func c12NoteExpired(c *c12Case, req, inst int) {
+	c12ExpiredMu.Lock()
+	defer c12ExpiredMu.Unlock()
+	if c12Expired[c] == nil {
+		c12Expired[c] = map[[2]int]bool{}
+	}
+	c12Expired[c][[2]int{req, inst}] = true
+}
+
+func c12ForgetExpired(c *c12Case) {
+	c12ExpiredMu.Lock()
+	defer c12ExpiredMu.Unlock()
+	delete(c12Expired, c)
+}
+
+func c12WasExpired(c *c12Case, req, inst int) bool {
+	c12ExpiredMu.Lock()
+	defer c12ExpiredMu.Unlock()
+	return c12Expired[c][[2]int{req, inst}]
+}
+
+type c12PItem struct {
+	rid   bool
+	sc    string // "<none>" or the wire string of the Set-Cookie value
+	ct    string // "<none>" or the wire string of the context value
+	attrs [6]string
+}
+
+type c12PReq struct {
+	kind   string // "hang", "panic", "rej", "pass"
+	status int
+	items  []c12PItem
+	names  []string
+}
+
+type c12PObs struct {
+	x      string
+	cpanic bool
+	reqs   []c12PReq
+}
+
+// c12ParseObs parses an observation line (the format of encOut in lean/EchoModel/C12.lean); ok = false on
+// anything unexpected (then nothing is tolerated)
+func c12ParseObs(line string) (o c12PObs, ok bool) {
+	t := strings.Fields(line)
+	pos := 0
+	next := func() (string, bool) {
+		if pos >= len(t) {
+			return "", false
+		}
+		pos++
+		return t[pos-1], true
+	}
+	num := func() (int, bool) {
+		s, ok := next()
+		if !ok {
+			return 0, false
+		}
+		n := 0
+		if s == "" || len(s) > 9 {
+			return 0, false
+		}
+		for i := 0; i < len(s); i++ {
+			if s[i] < '0' || s[i] > '9' {
+				return 0, false
+			}
+			n = n*10 + int(s[i]-'0')
+		}
+		return n, true
+	}
+	x, ok1 := next()
+	if !ok1 || !strings.HasPrefix(x, "x") {
+		return o, false
+	}
+	o.x = x
+	if pos < len(t) && t[pos] == "cpanic" {
+		o.cpanic = true
+		return o, pos+1 == len(t)
+	}
+	n, ok1 := num()
+	if !ok1 {
+		return o, false
+	}
+	for i := 0; i < n; i++ {
+		k, ok1 := next()
+		if !ok1 {
+			return o, false
+		}
+		var rq c12PReq
+		switch k {
+		case "hang":
+			rq.kind = "hang"
+		case "2":
+			rq.kind = "panic"
+		case "0":
+			rq.kind = "rej"
+			if rq.status, ok1 = num(); !ok1 {
+				return o, false
+			}
+		case "1":
+			rq.kind = "pass"
+			ni, ok1 := num()
+			if !ok1 {
+				return o, false
+			}
+			for j := 0; j < ni; j++ {
+				tag, ok1 := next()
+				if !ok1 {
+					return o, false
+				}
+				var it c12PItem
+				switch tag {
+				case "r":
+					it.rid = true
+					if _, ok1 = next(); !ok1 {
+						return o, false
+					}
+				case "c":
+					if it.sc, ok1 = next(); !ok1 {
+						return o, false
+					}
+					if it.ct, ok1 = next(); !ok1 {
+						return o, false
+					}
+					for a := 0; a < 6; a++ {
+						if it.attrs[a], ok1 = next(); !ok1 {
+							return o, false
+						}
+					}
+				default:
+					return o, false
+				}
+				rq.items = append(rq.items, it)
+			}
+			nn, ok1 := num()
+			if !ok1 {
+				return o, false
+			}
+			for j := 0; j < nn; j++ {
+				s, ok1 := next()
+				if !ok1 {
+					return o, false
+				}
+				rq.names = append(rq.names, s)
+			}
+		default:
+			return o, false
+		}
+		o.reqs = append(o.reqs, rq)
+	}
+	return o, pos == len(t)
+}
+
+// c12OutsideQuantifier: the TokenLookup string is not one the property ranges over ("tokens placed in header /
+// form / query per TokenLookup"): some comma-separated part of it is not a header:<name>[:<cut-prefix>],
+// form:<name> or query:<name> source (unknown or misspelled kind, no name, or the param: / cookie: sources)
+func c12OutsideQuantifier(lookup string) bool {
+	for _, src := range strings.Split(lookup, ",") {
+		p := strings.Split(src, ":")
+		switch {
+		case len(p) == 2 && (p[0] == "header" || p[0] == "form" || p[0] == "query") && p[1] != "":
+		case len(p) == 3 && p[0] == "header" && p[1] != "":
+		default:
+			return true
+		}
+	}
+	return false
+}
+
+// c12HeldInScope: the request carries the instance's CSRF cookie and a header / form / query source of the lookup
+// string holds exactly the cookie's token
+func c12HeldInScope(c *c12Case, in *c12Inst, rq *c12Req) bool {
+	var srcs []string
+	for _, src := range strings.Split(in.lookup, ",") {
+		if !c12OutsideQuantifier(src) {
+			srcs = append(srcs, src)
+		}
+	}
+	b := c12Build(c, rq)
+	held, _ := c12Held(strings.Join(srcs, ","), rq, b)
+	for _, ck := range b.cookies {
+		if ck.Name == in.cookie {
+			return held[ck.Value]
+		}
+	}
+	return false
+}
+
+func c12WireDecode(tok string) (string, bool) {
+	if !strings.HasPrefix(tok, "s") {
+		return "", false
+	}
+	b, err := hex.DecodeString(tok[1:])
+	if err != nil {
+		return "", false
+	}
+	return string(b), true
+}
+
+// c12Tolerable: implObs and modelObs differ; true only if every field C12 constrains agrees.
+func c12Tolerable(ci any, implObs, modelObs string) bool {
+	c, ok := ci.(*c12Case)
+	if !ok || !c.valid() || c.Conc > 0 || c.RealRandom {
+		return false
+	}
+	im, ok1 := c12ParseObs(implObs)
+	mo, ok2 := c12ParseObs(modelObs)
+	if !ok1 || !ok2 {
+		return false
+	}
+	insts := c.instances()
+	stack := c.stack()
+	// only the first instance's lookup varies; the second instance's is a fixed header/query/form one
+	outside := c12OutsideQuantifier(insts[0].lookup)
+	// what CreateExtractors returns for the string (count / error): a helper the property does not speak about,
+	// but for the strings the property ranges over it decides which locations are "configured": tolerated
+	// only for strings outside the quantifier
+	if im.x != mo.x && !outside {
+		return false
+	}
+	// construction.  The model's constructor panics: the implementation must not serve either.  The
+	// implementation refuses to construct: fine (nothing is served) if and only if the configuration is one the
+	// quantifier leaves out.
+	if mo.cpanic {
+		return im.cpanic
+	}
+	if im.cpanic {
+		return outside
+	}
+	if len(im.reqs) != len(mo.reqs) || len(im.reqs) != len(c.Reqs) {
+		return false
+	}
+	cookieNames := map[string]bool{}
+	for _, in := range insts {
+		cookieNames[wStr(in.cookie)] = true
+	}
+	for i := range c.Reqs {
+		a, b := im.reqs[i], mo.reqs[i]
+		rq := c.Reqs[i]
+		if a.kind != b.kind {
+			// served-vs-refused, panic-vs-answer: never tolerated, with one exception: under a lookup string outside the
+			// quantifier the implementation REFUSES (4xx, handler did not run) an unsafe request that the model lets
+			// through ONLY thanks to the part of the string the quantifier leaves out (no known source: nothing is
+			// validated; the token sits at a param: / cookie: source).  A request whose cookie token is held by a
+			// header / form / query source of the string must be served as in the model.  Only with a single CSRF
+			// instance: with two, the line does not say which instance refused.
+			if outside && len(insts) == 1 && a.kind == "rej" && a.status >= 400 && a.status <= 499 && b.kind == "pass" &&
+				!c12IsSafe(rq.Method) && rq.GuessFresh == "" && !c12HeldInScope(c, insts[0], &rq) {
+				continue
+			}
+			return false
+		}
+		switch a.kind {
+		case "rej":
+			// "rejected with a 4xx error": which one is not stated
+			if a.status != b.status && !(a.status >= 400 && a.status <= 499 && b.status >= 400 && b.status <= 499) {
+				return false
+			}
+		case "pass":
+			if len(a.items) != len(stack) || len(b.items) != len(stack) {
+				return false
+			}
+			// does the request carry the instance's cookie?  (GuessFresh adds header/query/form values only)
+			built := c12Build(c, &rq)
+			hasCookie := make([]bool, len(insts))
+			for k, in := range insts {
+				for _, ck := range built.cookies {
+					if ck.Name == in.cookie {
+						hasCookie[k] = true
+						break
+					}
+				}
+			}
+			type pair struct{ impl, model string }
+			var freshDiff []pair // fresh tokens that differ (tolerably) between the two sides
+			for p, k := range stack {
+				x, y := a.items[p], b.items[p]
+				if k < 0 {
+					// RequestID(): the X-Request-Id of the response is not a subject of the property
+					if !x.rid || !y.rid {
+						return false
+					}
+					continue
+				}
+				if x.rid || y.rid {
+					return false
+				}
+				// "every passed request gets a Set-Cookie carrying the token": presence must agree
+				if (x.sc == "<none>") != (y.sc == "<none>") {
+					return false
+				}
+				if x.sc != y.sc {
+					// "reused from the request cookie": fixed by the property, no tolerance.  "else freshly generated with
+					// the configured length from ASCII letters only": which letters is not stated
+					if hasCookie[k] {
+						return false
+					}
+					v, ok := c12WireDecode(x.sc)
+					if !ok || len(v) != insts[k].length || !c12Letters(v) {
+						return false
+					}
+					freshDiff = append(freshDiff, pair{x.sc, y.sc})
+				}
+				// Path, Domain, expiry, Secure, HttpOnly, SameSite: not stated — unless the cookie is an expired one
+				// (the client would drop the token instead of getting it)
+				if x.attrs != y.attrs && c12WasExpired(c, i, k) {
+					return false
+				}
+			}
+			// "the same token is what the handler finds in its context": the context values agree, or both are the
+			// (tolerably different) fresh token of the same instance
+			for p, k := range stack {
+				if k < 0 || a.items[p].ct == b.items[p].ct {
+					continue
+				}
+				found := false
+				for _, fd := range freshDiff {
+					if a.items[p].ct == fd.impl && b.items[p].ct == fd.model {
+						found = true
+					}
+				}
+				if !found {
+					return false
+				}
+			}
+			// Set-Cookie lines on the wire: the lines of the CSRF instances must agree in number (two lines with one
+			// name would leave open which token the client gets); the application's own cookies are not a subject
+			var na, nb []string
+			for _, n := range a.names {
+				if cookieNames[n] {
+					na = append(na, n)
+				}
+			}
+			for _, n := range b.names {
+				if cookieNames[n] {
+					nb = append(nb, n)
+				}
+			}
+			if strings.Join(na, " ") != strings.Join(nb, " ") {
+				return false
+			}
+		}
+	}
+	return true
+}
+
 func init() {
 	register(&Prop{
 		ID:             "C12",
-		Rule:           "one CSRF middleware per case, built with CSRFWithConfig (TokenLength 0/1..255 with the uint8 boundaries 203..208, 254, 255; 15 header/form/query TokenLookup shapes with 1-3 sources, prefix cut (also as the LAST source), non-canonical header names; 12% param:/cookie: sources on routes with 1-3 or 22 path parameters; 4% ignored/failing sources (no known source: compared with the model only); a third with a custom ErrorHandler that writes its own 418 and returns nil, or returns its own 409 error; a third with cookie options Path/Domain/MaxAge/Secure/HttpOnly/SameSite 0..4; a seventh with a Skipper on the X-Skip header) or with the convenience constructor CSRF() (8%); a quarter of the cases stack other consumers of the random source on the same Echo: RequestID() after or before CSRF, a second CSRF instance (own cookie, context key, lookup, token length), or CSRF + RequestID() + second CSRF (the second instance with its own ContextKey, or — own cookie _csrf_admin / lookup form:admin_csrf, or cookie _csrf2 — on the DEFAULT ContextKey shared with the first instance: the innermost instance owns the key, every instance still validates and publishes its own cookie); a twelfth of the cases have an earlier middleware that presets a value under the ContextKey; registration with e.Use, on the route, on a group, first on the Echo and the rest on a group, or applied once by hand (mw(handler): the only way state of the func(next) part is shared between requests); x 1-4 requests: 27 method spellings (standard, lower/mixed case, padded, custom, empty) x cookie present/empty/absent/look-alike name/duplicated x client token exact (alone, among 3/20/21/25 values, beside wrong tokens at other sources), near miss (prefix, suffix, case change, padding, NUL, bit flip, empty), absent, at a non-configured, look-alike-named or unparsed location, or guessed fresh token; random source = seeded byte stream per request delivered one byte per Read (uniform, mostly rejected bytes, boundary bytes 200..215, whole first buffer rejected, too short for the first or for a later consumer), shared by all consumers of the request; every token a handler found in its context is kept (the very string) and compared again with its Set-Cookie after all later requests; every 60th case runs on the real crypto/rand (oracle only: length, letters, Set-Cookie = context, no token issued twice); CreateExtractors is also called directly on the configured string; lookups with a prefix-cut header source before AND after header sources without one (with the other source's cut-prefix + token presented at the source without one); a quarter of the near misses embed the right token as an element of a longer value (lists with comma / semicolon / space / tab, quotes, doubled); a tenth of the configured cases reach the middleware through the package-level default (CSRF() with the stock default, DefaultCSRFConfig changed, CSRF() again; restored afterwards); a quarter of the requests are answered by a handler that writes nothing, writes through the raw Response.Writer or Unwrap(), uses NoContent, or returns an HTTPError (Set-Cookie is read off what reached the wire); second-instance cookie names that extend the first one (+_site) or are a proper prefix of it; a sixth of the cases have application cookies set before the stack (session, <csrf cookie>_state) and by the handler (after): the sorted names of all Set-Cookie lines on the wire are compared with the model; cookies holding %xx / + escapes with the DECODED value presented as client token; plus 12 (thorough: 150) concurrency cases: 8-16 goroutines x 150-300 (x3) overlapping requests through one stack, each goroutine with its own cookie (every third without: real crypto/rand), every response must carry ITS request's token in Set-Cookie and context, every request must pass (oracle only, sound on every schedule); non-trivial = an unsafe request that passed, or was rejected although cookie and client tokens were present; distinct = distinct model op lines",
+		Rule:           "one CSRF middleware per case, built with CSRFWithConfig (TokenLength 0/1..255 with the uint8 boundaries 203..208, 254, 255; 15 header/form/query TokenLookup shapes with 1-3 sources, prefix cut (also as the LAST source), non-canonical header names; 12% param:/cookie: sources on routes with 1-3 or 22 path parameters; 4% ignored/failing sources (no known source: compared with the model only); a third with a custom ErrorHandler that writes its own 418 and returns nil, or returns its own 409 error; a third with cookie options Path/Domain/MaxAge/Secure/HttpOnly/SameSite 0..4; a seventh with a Skipper on the X-Skip header) or with the convenience constructor CSRF() (8%); a quarter of the cases stack other consumers of the random source on the same Echo: RequestID() after or before CSRF, a second CSRF instance (own cookie, context key, lookup, token length), or CSRF + RequestID() + second CSRF (the second instance with its own ContextKey, or — own cookie _csrf_admin / lookup form:admin_csrf, or cookie _csrf2 — on the DEFAULT ContextKey shared with the first instance: the innermost instance owns the key, every instance still validates and publishes its own cookie); a twelfth of the cases have an earlier middleware that presets a value under the ContextKey; registration with e.Use, on the route, on a group, first on the Echo and the rest on a group, or applied once by hand (mw(handler): the only way state of the func(next) part is shared between requests); x 1-4 requests: 27 method spellings (standard, lower/mixed case, padded, custom, empty) x cookie present/empty/absent/look-alike name/duplicated x client token exact (alone, among 3/20/21/25 values, beside wrong tokens at other sources), near miss (prefix, suffix, case change, padding, NUL, bit flip, empty), absent, at a non-configured, look-alike-named or unparsed location, or guessed fresh token; random source = seeded byte stream per request delivered one byte per Read (uniform, mostly rejected bytes, boundary bytes 200..215, whole first buffer rejected, too short for the first or for a later consumer), shared by all consumers of the request; every token a handler found in its context is kept (the very string) and compared again with its Set-Cookie after all later requests; every 60th case runs on the real crypto/rand (oracle only: length, letters, Set-Cookie = context, no token issued twice); CreateExtractors is also called directly on the configured string; lookups with a prefix-cut header source before AND after header sources without one (with the other source's cut-prefix + token presented at the source without one); a quarter of the near misses embed the right token as an element of a longer value (lists with comma / semicolon / space / tab, quotes, doubled); a tenth of the configured cases reach the middleware through the package-level default (CSRF() with the stock default, DefaultCSRFConfig changed, CSRF() again; restored afterwards); a quarter of the requests are answered by a handler that writes nothing, writes through the raw Response.Writer or Unwrap(), uses NoContent, or returns an HTTPError (Set-Cookie is read off what reached the wire); second-instance cookie names that extend the first one (+_site) or are a proper prefix of it; a sixth of the cases have application cookies set before the stack (session, <csrf cookie>_state) and by the handler (after): the sorted names of all Set-Cookie lines on the wire are compared with the model; cookies holding %xx / + escapes with the DECODED value presented as client token; plus 12 (thorough: 150) concurrency cases: 8-16 goroutines x 150-300 (x3) overlapping requests through one stack, each goroutine with its own cookie (every third without: real crypto/rand), every response must carry ITS request's token in Set-Cookie and context, every request must pass (oracle only, sound on every schedule); plus 150 (thorough: 1800) cases with sources of different kinds and names in one lookup string in every order (form before/after query, header in between) where the cookie's token sits under the NAME of one configured source at the KIND of location of another (query name as body field, form name as header, header name in the query; body parsed by net/http in most cases), a third of the single-instance ones with the browser's fetch-metadata headers (Sec-Fetch-Site same-origin / same-site / none / cross-site, Origin, Referer), a third of them with the second instance (query:csrf2) behind a first instance satisfied through its form source and the second token as BODY field csrf2; non-trivial = an unsafe request that passed, or was rejected although cookie and client tokens were present; distinct = distinct model op lines",
 		New:            func() any { return &c12Case{} },
 		Gen:            c12Gen,
 		Run:            c12Run,
 		Shrink:         c12Shrink,
 		Mutate:         c12Mutate,
 		Serial:         true,
+		Tolerable:      c12Tolerable,
 		Correspondence: "C12.serveStack / C12.handle / C12.serve / C12.randomStringR / C12.cookieAttrs / C12.createExtractors (lean/EchoModel/C12.lean) vs middleware.CSRF / CSRFWithConfig (+ RequestID) + extractors + randomString with the injected random source",
 	})
 }
